@@ -518,6 +518,9 @@ func SigOf(msg string) string {
 	if len(f) < 3 {
 		return msg
 	}
+	if f[0] == "claim" || f[0] == "claims" {
+		return "claim:" + claimSig(msg) // DRA (dra.go): the violated clause, never device or object names
+	}
 	field := f[2]
 	if i := strings.IndexAny(field, "[:="); i > 0 {
 		field = field[:i]
